@@ -170,7 +170,10 @@ def returns_of(F, cg, fn, amap=None, prefix=(), depth=0):
                 continue          # the error arm of `?` (whether it is reachable at all depends on the callee: NeverErr pruning)
             if not (depth < 3 and c != fn and inline.is_new_helper(F, c)):
                 here = sorted(set(prefix) | inline.fact_strings(structural_facts(B, i), canon_fact, amap))
-                out.append(('value ' + inline.subst(skey_call(B, t), amap), here))
+                if c.split('::')[-1] in ('from', 'into', 'to_owned', 'to_path_buf', 'clone', 'as_ref', 'borrow') and len(t['args']) == 1:
+                    out.append(('value ' + inline.subst(sdesc_operand(B, t['args'][0]), amap), here))          # PathBuf::from(x) / x.into() are x
+                else:
+                    out.append(('value ' + inline.subst(skey_call(B, t), amap), here))
     if depth < 3:
         for i, t in B.calls():
             if t['dest']['l'] == 0 and not t['dest']['p']:
@@ -274,8 +277,20 @@ def _collect(F, cg, fns):
                 # struct literals of the crate's own types: the value of every field
                 elif rv['k'] == 'aggregate' and rv.get('agg') == 'adt' and rv.get('fields') and len(rv['ops']) > 1 and not str(rv.get('adt', '')).startswith(('std::', 'core::', 'alloc::')):
                     res.setdefault('%s|build %s' % (fn, str(rv.get('adt', '')).split('::')[-1]), []).append([inline.subst(_rv_desc(_B, rv), amap)])
+        is_bool = B.local_ty(0) == 'bool'
         for v, facts in returns_of(F, cg, fn):
-            if v.startswith('value '):
+            if is_bool:
+                # a predicate is described by its truth conditions: the fact sets under which it returns true (`return false` is the complement); a computed
+                # result `e` under F is `true` under F + [e] — so `match x { Some(v) => p(v), None => false }` and `matches!(x, Some(v) if p(v))` agree
+                if v == 'false':
+                    continue
+                if v.startswith('value '):
+                    d, tv = canon_fact(v[6:], True)
+                    while d.startswith('Not(') and d.endswith(')'):
+                        d, tv = canon_fact(d[4:-1], not tv) if isinstance(tv, bool) else (d, tv)
+                    facts = sorted(set(facts) | {'%s=%s' % (d, tv)})
+                res.setdefault('%s|return true' % fn, []).append(facts)
+            elif v.startswith('value '):
                 res.setdefault('%s|result' % fn, []).append([v[6:]] + facts)
             else:
                 res.setdefault('%s|return %s' % (fn, v), []).append(facts)
